@@ -114,8 +114,12 @@ TFinish ==
 TDropHandles == Is("DropHandles") /\ Adv /\ Keep /\ DropHandles
 
 (* ---------------------------------- driver ---------------------------------- *)
+(* what the properties state outright about a scrub (C12: the late reply is delivered to nobody, the ID is reusable) and
+   about an Abandon (C13: the target's routing state and ID are released) is not adoptable: it is checked on the logged
+   post-state itself *)
 TDrvScrub ==
   /\ Is("DrvScrub") /\ Adv /\ Keep
+  /\ Chk(E.id \notin (LU \cup LR \cup LS), "effect:scrub")
   /\ scrubQ # <<>> /\ Head(scrubQ) = E.id
   /\ IF SameBook(ScrubRef) THEN DrvScrubP(ScrubRef.u, ScrubRef.r, ScrubRef.s)
      ELSE /\ Adoptable(resmap, LR) /\ Adoptable(seamap, LS) /\ Diag(BookTag(ScrubRef))
@@ -134,6 +138,7 @@ TDrvScrubX ==
 TDrvOp ==
   /\ Is("DrvOp") /\ Adv /\ Keep
   /\ reqQ # <<>> /\ ReqHead.id = E.id /\ kind[ReqHead.op] = E.k
+  /\ Chk(E.k # "abandon" \/ ~E.ok \/ (E.tg = target[ReqHead.op] /\ E.tg \notin (LU \cup LR \cup LS)), "effect:abandon")
   /\ IF ~E.ok THEN DrvOpSendFail
      ELSE IF SameBook(OpRef) THEN DrvOpSentP(OpRef.u, OpRef.r, OpRef.s)
      ELSE /\ Adoptable(resmap, LR) /\ Adoptable(seamap, LS) /\ Diag(BookTag(OpRef))
@@ -157,11 +162,17 @@ TSrvSend == /\ Is("SrvSend") /\ Adv /\ Keep
 TSrvOrphan == Is("SrvOrphan") /\ Adv /\ Keep /\ SrvOrphan(E.id, E.typ) /\ tok' = E.tok
 TSrvGarbage == Is("SrvGarbage") /\ Adv /\ Keep /\ SrvGarbage
 TSrvClose == Is("SrvClose") /\ Adv /\ Keep /\ SrvClose(E.how)
+(* what the scripted server decoded from the bytes it read: the request must be one the model put on the wire, of the
+   same kind, and an AbandonRequest must name the ID the caller gave *)
+AppOfKind(k) == CASE k = "single" -> {0, 10, 14} [] k = "search" -> {3} [] k = "abandon" -> {16} [] k = "unbind" -> {2} [] OTHER -> {}
+TSrvGot == /\ Is("SrvGot") /\ Adv /\ Keep /\ UNCHANGED vars
+           /\ Chk(\E r \in c2s : r.id = E.id /\ E.app \in AppOfKind(r.kind), "wire")
+           /\ Chk(E.app # 16 \/ \E r \in c2s : r.id = E.id /\ r.tg = E.tg, "wire:abandon")
 TTick == Is("Tick") /\ Adv /\ Keep /\ Chk(~TimerDue, "time") /\ TickCore /\ now' = E.now
 
 (* ------------------------------ observations ------------------------------ *)
 TQuiet == /\ Is("Quiet") /\ Adv /\ Keep /\ UNCHANGED vars
-          /\ Chk(SetOfSeq(E.used) \subseteq used, "book:more") /\ Chk(used \subseteq SetOfSeq(E.used) /\ E.last = last, "book:less")
+          /\ Chk(SetOfSeq(E.used) \subseteq used, "quiet:more") /\ Chk(used \subseteq SetOfSeq(E.used) /\ E.last = last, "quiet:less")
 TClientClosed == /\ Is("ClientClosed") /\ Adv /\ Keep /\ UNCHANGED vars
                  /\ Chk((drv # "run" => (E.shutdown \/ E.dropped)), "close")
 TIgnored == (Is("IdRelease")) /\ Adv /\ Keep /\ UNCHANGED vars
@@ -169,7 +180,7 @@ TIgnored == (Is("IdRelease")) /\ Adv /\ Keep /\ UNCHANGED vars
 Explained ==
   \/ TSetLast \/ TCall \/ TStart \/ TRet \/ TCallNext \/ TRetNext \/ TInner \/ TFinish \/ TDropHandles
   \/ TDrvScrub \/ TDrvScrubX \/ TDrvOp \/ TDrvRecv \/ TDrvExit
-  \/ TSrvSend \/ TSrvOrphan \/ TSrvGarbage \/ TSrvClose \/ TTick \/ TQuiet \/ TClientClosed \/ TIgnored
+  \/ TSrvGot \/ TSrvSend \/ TSrvOrphan \/ TSrvGarbage \/ TSrvClose \/ TTick \/ TQuiet \/ TClientClosed \/ TIgnored
 
 (* Hang / Panic are observations no action explains *)
 TUnexplained ==
